@@ -449,7 +449,12 @@ int main(void) {
     char *t[HC_MAX_TOKS];
     int n;
     aws_common_library_init(hc_allocator());
-    printf("I avx2=%d\n", (int)aws_common_private_has_avx2());
+    /* dispatch probe: the library's answer (asked twice: it caches), and gcc's independent cpuid + XGETBV test */
+    {
+        int a = (int)aws_common_private_has_avx2(), b = (int)aws_common_private_has_avx2();
+        __builtin_cpu_init();
+        printf("I avx2=%d avx2_again=%d host_avx2=%d\n", a, b, __builtin_cpu_supports("avx2") ? 1 : 0);
+    }
     fflush(stdout);
     while ((n = hc_next_line(t)) >= 0) {
         const char *op = t[0];
